@@ -144,6 +144,12 @@ func LiveMPD(a *asset, mpdName string, cfg *ResponseConfig, drmCfg *drm.DrmConfi
 					return nil, fmt.Errorf("drm parameter %q, but pre-encrypted asset %s cannot be encrypted again",
 						cfg.DRM, a.AssetPath)
 				}
+				for _, rep := range as.Representations {
+					if rd, ok := a.Reps[rep.Id]; ok && rd.encData == nil {
+						return nil, fmt.Errorf("drm parameter %q, but representation %s of asset %s cannot be encrypted",
+							cfg.DRM, rep.Id, a.AssetPath)
+					}
+				}
 				switch cfg.DRM {
 				case "eccp-cenc", "eccp-cbcs":
 					if a.refRep.PreEncrypted {
